@@ -126,6 +126,12 @@ func (e Engine) Pool() []Op {
 	for _, o := range collisionOps() {
 		add(o)
 	}
+	// a schedule may run the cheaper "spec" stage of any specification operation: close the pool under that
+	for _, o := range append([]Op(nil), pool...) {
+		if o.Kind == "spec_lalr" || o.Kind == "spec_dfa" {
+			add(Op{"spec", o.Text})
+		}
+	}
 	return pool
 }
 
